@@ -153,6 +153,15 @@ class SFixed(Template[_FixedTemplateArg], AssignableType):
         # least significant bits of integers larger than 2**53
         return int(fractions.Fraction(val) / fractions.Fraction(2) ** cls._exp)
 
+    @classmethod
+    @pyeval
+    def _is_representable(cls, val):
+        if not cls.min() <= val <= cls.max():
+            # checked (and rejected) by the constructor
+            return True
+        scaled = fractions.Fraction(val) / fractions.Fraction(2) ** cls._exp
+        return scaled.denominator == 1
+
     @pyeval
     def __repr__(self):
         val = TypeQualifier.decay(self._val).to_int() * 2**self._exp
@@ -233,6 +242,10 @@ class SFixed(Template[_FixedTemplateArg], AssignableType):
 
     def __eq__(self, other: int | float | SFixed):
         if isinstance(other, (int, float)):
+            if not self._is_representable(other):
+                # a number between two representable values is not equal to
+                # any of them (the constructor would truncate it)
+                return False
             return type(self)(other) == self
         else:
             assert isinstance(other, SFixed)
@@ -536,6 +549,15 @@ class UFixed(Template[_FixedTemplateArg], AssignableType):
         # least significant bits of integers larger than 2**53
         return int(fractions.Fraction(val) / fractions.Fraction(2) ** cls._exp)
 
+    @classmethod
+    @pyeval
+    def _is_representable(cls, val):
+        if not cls.min() <= val <= cls.max():
+            # checked (and rejected) by the constructor
+            return True
+        scaled = fractions.Fraction(val) / fractions.Fraction(2) ** cls._exp
+        return scaled.denominator == 1
+
     @pyeval
     def __repr__(self):
         val = TypeQualifier.decay(self._val).to_int() * 2**self._exp
@@ -607,6 +629,10 @@ class UFixed(Template[_FixedTemplateArg], AssignableType):
 
     def __eq__(self, other: int | float | UFixed):
         if isinstance(other, (int, float)):
+            if not self._is_representable(other):
+                # a number between two representable values is not equal to
+                # any of them (the constructor would truncate it)
+                return False
             return type(self)(other) == self
         else:
             assert isinstance(other, UFixed)
